@@ -303,6 +303,9 @@ func c11RunE2E(t *testing.T, lane string, alt bool, n int, rule string) {
 				return c11GenPols(r, []c11Auth{a0}, limit, hdrPool)
 			})
 			var j int
+			if fam.shared {
+				s.Count("args:clients-from-caller-owned-array")
+			}
 			j, scen = fam.pick(r)
 			cl, ps = fam.clients[j], fam.want[j]
 			line0 = "c11clonechain " + fam.encOps() + " " + strconv.Itoa(j)
@@ -598,7 +601,7 @@ func c11RunE2E(t *testing.T, lane string, alt bool, n int, rule string) {
 		s.Case(line, ans, ok, class, m > 0, human)
 	}
 	must := []string{"direct", "reused-client", "family:original", "family:set-on-clone", "family:clone-of-clone-inherits", "family:clone-inherits,parent-reconfigured-later", "family:clone-inherits", "outcome:final", "outcome:refused", "outcome:last", "cross-origin-strip", "pol:copy", "pol:samehost", "pol:samedomain", "pol:ahost", "pol:adomain", "pol:no", "pol:nil", "pol:max", "hops-scripted:0", "hops-scripted:3", "host0-normalised-by-client",
-		"host-override:request", "host-override:client", "host-override=next-hop-host", "checkredirect-observed"}
+		"host-override:request", "host-override:client", "host-override=next-hop-host", "checkredirect-observed", "args:clients-from-caller-owned-array"}
 	if alt {
 		must = append(must, "altsvc-entry", "altsvc-entry-for-first-origin", "request-carried-by-alternative")
 	}
